@@ -62,6 +62,7 @@ type vmSpec struct {
 	out        string // ok | err | panic
 	rf         bool   // controller resolution fails
 	cerr       bool   // Close of the scoped disposable returns an error
+	pre        bool   // the incoming request context already carries a scope (created by the harness)
 }
 
 // vmReq is one request: its spec and what was observed.
@@ -75,6 +76,7 @@ type vmReq struct {
 	attempts int
 	status   int
 	escaped  bool // a panic left the whole stack
+	outer    godi.Scope
 	bar      *vmBarrier
 	arrived  sync.Once
 	sc       *vmScenario
@@ -89,7 +91,7 @@ func (r vmSpec) line() string {
 	if r.createFail {
 		cr = "fail"
 	}
-	body := fmt.Sprintf("down=%s fail=%s create=%s out=%s rf=%s cerr=%s", r.down, f, cr, r.out, b01(r.rf), b01(r.cerr))
+	body := fmt.Sprintf("down=%s fail=%s create=%s out=%s rf=%s cerr=%s pre=%s", r.down, f, cr, r.out, b01(r.rf), b01(r.cerr), b01(r.pre))
 	if r.batch > 0 {
 		return fmt.Sprintf("mw creq b=%d %s", r.batch, body)
 	}
@@ -118,6 +120,15 @@ func (r *vmReq) name(s godi.Scope) string {
 type vmKey struct{}
 
 func vmWith(ctx context.Context, r *vmReq) context.Context { return context.WithValue(ctx, vmKey{}, r) }
+
+// ctx is the context of the incoming request: it identifies the request record and, for `pre=1`,
+// already carries a scope that does not belong to the request.
+func (r *vmReq) ctx(parent context.Context) context.Context {
+	if r.outer != nil {
+		parent = r.outer.Context()
+	}
+	return vmWith(parent, r)
+}
 func vmReqOf(ctx context.Context) *vmReq {
 	if ctx == nil {
 		return nil
@@ -239,7 +250,7 @@ type vmBarrier struct {
 	mu      sync.Mutex
 	need    int
 	ch      chan struct{}
-	timeout *int32
+	timeout *int32 // counts timed-out arrivals of the whole run
 }
 
 func (b *vmBarrier) arrive() {
@@ -249,9 +260,13 @@ func (b *vmBarrier) arrive() {
 		close(b.ch)
 	}
 	b.mu.Unlock()
+	d := 5 * time.Second
+	if atomic.LoadInt32(b.timeout) >= 6 { // an implementation that keeps requests from arriving: stop waiting for it
+		d = 20 * time.Millisecond
+	}
 	select {
 	case <-b.ch:
-	case <-time.After(5 * time.Second): // never a failure: only less overlap
+	case <-time.After(d): // never a failure: only less overlap
 		atomic.AddInt32(b.timeout, 1)
 	}
 }
@@ -282,7 +297,6 @@ type vmScenario struct {
 	owner    map[godi.Scope]*vmReq // who got it from CreateScope
 	res      map[godi.Scope]*vmRes
 	closed   bool
-	barrierT int32
 }
 
 func (sc *vmScenario) addScope(s godi.Scope, r *vmReq) {
@@ -404,6 +418,8 @@ type vmRun struct {
 	sc            *vmScenario
 	nextID        int
 	skip          bool // scenario of another framework (shared corpus / replay files)
+	waited        time.Duration
+	barrierT      int32 // rendezvous that timed out in this run
 }
 
 func (v *vmRun) emit(op, obs string) {
@@ -435,7 +451,7 @@ func kvs(w []string) map[string]string {
 func (v *vmRun) parseReq(w []string) *vmReq {
 	m := kvs(w)
 	v.nextID++
-	r := &vmReq{id: v.nextID, vmSpec: vmSpec{down: m["down"], fail: -1, out: m["out"], createFail: m["create"] == "fail", rf: m["rf"] == "1", cerr: m["cerr"] == "1"}, sc: v.sc}
+	r := &vmReq{id: v.nextID, vmSpec: vmSpec{down: m["down"], fail: -1, out: m["out"], createFail: m["create"] == "fail", rf: m["rf"] == "1", cerr: m["cerr"] == "1", pre: m["pre"] == "1"}, sc: v.sc}
 	if f, err := strconv.Atoi(m["fail"]); err == nil {
 		r.fail = f
 	}
@@ -522,7 +538,7 @@ func (v *vmRun) runBatch(batch []*vmReq) {
 			}
 		}
 		if need > 1 {
-			bar := &vmBarrier{need: need, ch: make(chan struct{}), timeout: &sc.barrierT}
+			bar := &vmBarrier{need: need, ch: make(chan struct{}), timeout: &v.barrierT}
 			for _, r := range batch {
 				if v.expectScope(r) {
 					r.bar = bar
@@ -535,6 +551,14 @@ func (v *vmRun) runBatch(batch []*vmReq) {
 	sc.mu.Lock()
 	before := len(sc.scopes)
 	sc.mu.Unlock()
+	for _, r := range batch {
+		if r.pre && sc.cfg.inst && !sc.closed {
+			if o, err := sc.prov.CreateScope(context.Background()); err == nil {
+				r.outer = o
+				v.stats["pre_existing_scope"]++
+			}
+		}
+	}
 	var wg sync.WaitGroup
 	for _, r := range batch {
 		wg.Add(1)
@@ -544,12 +568,17 @@ func (v *vmRun) runBatch(batch []*vmReq) {
 		}(r)
 	}
 	wg.Wait()
+	for _, r := range batch {
+		if r.outer != nil {
+			_ = r.outer.Close()
+		}
+	}
 	// the request has ended: everything C16 promises must hold NOW. The framework calls are
 	// synchronous, so no wait is needed on correct code; the bounded wait only keeps a report about
 	// a leak from being a report about scheduling.
 	for _, r := range batch {
 		for _, s := range r.created {
-			deadline := time.Now().Add(2 * time.Second)
+			deadline := time.Now().Add(v.waitBudget(2 * time.Second))
 			for {
 				sc.mu.Lock()
 				x := sc.res[s]
@@ -590,9 +619,17 @@ func (v *vmRun) runBatch(batch []*vmReq) {
 		v.stats["path:"+v.pathOf(r)]++
 		v.stats["down:"+r.down]++
 	}
-	if bt := int(atomic.SwapInt32(&sc.barrierT, 0)); bt > 0 {
-		v.stats["barrier_timeouts"] += bt
+	v.stats["barrier_timeouts"] = int(atomic.LoadInt32(&v.barrierT))
+}
+
+// waitBudget: bounded waits are for robustness, not part of any verdict; after 10 s of accumulated
+// waiting (only a leaking implementation gets there) further waits are skipped.
+func (v *vmRun) waitBudget(d time.Duration) time.Duration {
+	if v.waited >= 10*time.Second {
+		return 0
 	}
+	v.waited += d
+	return d
 }
 
 func (v *vmRun) pathOf(r *vmReq) string {
@@ -808,6 +845,12 @@ func (v *vmRun) reqLines(cfg vmCfg, exhaustive bool, rng *rand.Rand) []string {
 			continue
 		}
 		add(vmSpec{down: d, fail: -1, createFail: true, out: "ok"})
+		add(vmSpec{down: d, fail: -1, out: "ok", pre: true})
+		add(vmSpec{down: d, fail: -1, out: "panic", pre: true})
+		add(vmSpec{down: d, fail: -1, createFail: true, out: "ok", pre: true})
+		if cfg.n > 0 {
+			add(vmSpec{down: d, fail: cfg.n - 1, out: "ok", pre: true})
+		}
 		for f := -1; f < cfg.n; f++ {
 			for _, o := range outs {
 				for _, rf := range rfs {
@@ -860,6 +903,7 @@ func (v *vmRun) randReq(rng *rand.Rand, cfg vmCfg) vmSpec {
 	r.createFail = rng.Intn(8) == 0
 	r.rf = rng.Intn(5) == 0
 	r.cerr = rng.Intn(5) == 0
+	r.pre = cfg.inst && rng.Intn(5) == 0
 	return r
 }
 
